@@ -1,1 +1,734 @@
-//! C19 harnesses (not written yet).
+//! C19 — fixed-capacity overflow and bad arguments are signalled, never silently absorbed.
+//!
+//! Harness kinds (name suffix `_pb` = checked under the dev-like *and* the release-like
+//! model, i.e. with `debug_assert!` compiled out; no suffix = dev-like model only):
+//!
+//! * growth (`harness_mp!`, `_pb`): arbitrary `Inv` pre-state and arbitrary arguments, on
+//!   both sides of the capacity edge. Whenever the list edit would exceed the capacity
+//!   the call must not return (`never!`); whatever is returned must satisfy
+//!   `len <= capacity` and the representation invariant (no bit at index >= len).
+//!   Correctness of the in-capacity results is C07's subject.
+//! * constructors that panic (`harness_mp!`, `_pb`): `zeros / ones / repeat` beyond capacity.
+//! * constructors that return an error (`harness!`, `_pb`: any panic is a failure):
+//!   `from_bytes / from_binary / from_hex / read / TryFrom` return `Err` exactly when the
+//!   input does not fit and otherwise a vector with `len <= capacity` holding the value.
+//! * index checks (`harness_mp!`, dev-like model only): `get / set / copy_range / split_off`
+//!   with out-of-range arguments panic.
+use crate::big::Big;
+use crate::nd;
+use crate::scopes::*;
+use bva::{Bit, BitVector, Bv, Bvd, Bvf, ConvertionError, Endianness};
+
+#[inline(always)]
+fn bit_of(b: bool) -> Bit {
+    if b {
+        Bit::One
+    } else {
+        Bit::Zero
+    }
+}
+
+/// Eight symbolic bits as an array plus their value.
+macro_rules! bits8 {
+    () => {{
+        let raw = nd::u8();
+        let all: [Bit; 8] = [
+            bit_of(raw & 1 != 0),
+            bit_of(raw & 2 != 0),
+            bit_of(raw & 4 != 0),
+            bit_of(raw & 8 != 0),
+            bit_of(raw & 16 != 0),
+            bit_of(raw & 32 != 0),
+            bit_of(raw & 64 != 0),
+            bit_of(raw & 128 != 0),
+        ];
+        all
+    }};
+}
+
+/// Replacement for `<[T]>::copy_from_slice` under Kani (CBMC 6.11 mis-models a `memcpy` of
+/// symbolic size over elements wider than a byte; see c08.rs). Element-wise, same panic.
+#[cfg(kani)]
+pub fn copy_from_slice_model<T: Copy>(dst: &mut [T], src: &[T]) {
+    assert!(dst.len() == src.len(), "copy_from_slice: source and destination lengths differ");
+    let mut i = 0;
+    while i < dst.len() {
+        dst[i] = src[i];
+        i += 1;
+    }
+}
+
+/// `harness_mp!` plus the `copy_from_slice` stub.
+macro_rules! harness_mp_cfs {
+    ($name:ident, $unw:literal, $body:block) => {
+        #[cfg_attr(kani, kani::proof)]
+        #[cfg_attr(kani, kani::unwind($unw))]
+        #[cfg_attr(kani, kani::should_panic)]
+        #[cfg_attr(kani, kani::stub(<[u64]>::copy_from_slice, copy_from_slice_model))]
+        pub fn $name() $body
+    };
+}
+
+// ---- growth operations: must panic beyond the capacity, never return an over-long vector ----
+
+macro_rules! h_grow_push {
+    ($name:ident, $unw:literal, $a:expr) => {
+        harness_mp!($name, $unw, {
+            let (mut a, ra) = $a;
+            let n = ra.len;
+            w!(n == ra.cap, "vector is full: push must panic");
+            w!(n + 1 == ra.cap, "one free bit left: push must succeed");
+            w!(n == 0, "empty vector");
+            a.push(nd::bit());
+            if n + 1 > ra.cap {
+                never!("NEVER:returned");
+            }
+            let r = a.into_raw();
+            assert!(r.len <= r.cap, "C19: push returned a vector with len > capacity");
+            assert!(r.inv() && r.len == n + 1, "C19: push returned a broken or silently truncated vector");
+        });
+    };
+}
+
+macro_rules! h_grow_resize {
+    ($name:ident, $unw:literal, $a:expr) => {
+        harness_mp!($name, $unw, {
+            let (mut a, ra) = $a;
+            let n = ra.len;
+            let m = nd::usize();
+            w!(m == ra.cap + 1, "new_len one beyond the capacity");
+            w!(m == ra.cap && n < m, "grow to exactly the capacity");
+            w!(m == usize::MAX, "new_len = usize::MAX");
+            w!(n == ra.cap && m > n, "full vector asked to grow");
+            a.resize(m, nd::bit());
+            if m > ra.cap {
+                never!("NEVER:returned");
+            }
+            let r = a.into_raw();
+            assert!(r.len <= r.cap, "C19: resize returned a vector with len > capacity");
+            assert!(r.inv() && r.len == m, "C19: resize returned a broken or silently truncated vector");
+        });
+    };
+}
+
+macro_rules! h_grow_sign_extend {
+    ($name:ident, $unw:literal, $a:expr) => {
+        harness_mp!($name, $unw, {
+            let (mut a, ra) = $a;
+            let n = ra.len;
+            let m = nd::usize();
+            w!(m == ra.cap + 1, "new_length one beyond the capacity");
+            w!(m == ra.cap && n < m && n > 0 && ra.v.bit(n - 1), "negative value extended to exactly the capacity");
+            w!(m > ra.cap && n == ra.cap, "full vector asked to grow");
+            a.sign_extend(m);
+            if m > ra.cap {
+                never!("NEVER:returned");
+            }
+            let r = a.into_raw();
+            assert!(r.len <= r.cap, "C19: sign_extend returned a vector with len > capacity");
+            assert!(r.inv() && r.len == if m > n { m } else { n }, "C19: sign_extend returned a broken or silently truncated vector");
+        });
+    };
+}
+
+macro_rules! wit_grow2 {
+    ($ra:ident, $rx:ident) => {
+        w!($ra.len + $rx.len == $ra.cap + 1, "one bit too many");
+        w!($ra.len + $rx.len == $ra.cap && $rx.len > 0, "fills the capacity exactly");
+        w!($ra.len == $ra.cap && $rx.len == 0, "full vector, empty operand (must succeed)");
+        w!($ra.len == 0 && $rx.len > $ra.cap, "empty vector, operand alone exceeds the capacity");
+    };
+}
+
+macro_rules! h_grow_append {
+    ($name:ident, $unw:literal, $a:expr, $x:expr) => {
+        harness_mp!($name, $unw, {
+            let (mut a, ra) = $a;
+            let (x, rx) = $x;
+            let n = ra.len;
+            wit_grow2!(ra, rx);
+            a.append(&x);
+            if n + rx.len > ra.cap {
+                never!("NEVER:returned");
+            }
+            let r = a.into_raw();
+            assert!(r.len <= r.cap, "C19: append returned a vector with len > capacity");
+            assert!(r.inv() && r.len == n + rx.len, "C19: append returned a broken or silently truncated vector");
+        });
+    };
+}
+
+macro_rules! h_grow_prepend {
+    ($name:ident, $unw:literal, $a:expr, $x:expr) => {
+        harness_mp!($name, $unw, {
+            let (mut a, ra) = $a;
+            let (x, rx) = $x;
+            let n = ra.len;
+            wit_grow2!(ra, rx);
+            a.prepend(&x);
+            if n + rx.len > ra.cap {
+                never!("NEVER:returned");
+            }
+            let r = a.into_raw();
+            assert!(r.len <= r.cap, "C19: prepend returned a vector with len > capacity");
+            assert!(r.inv() && r.len == n + rx.len, "C19: prepend returned a broken or silently truncated vector");
+        });
+    };
+}
+
+macro_rules! h_grow_insert {
+    ($name:ident, $unw:literal, $a:expr, $x:expr) => {
+        harness_mp_cfs!($name, $unw, {
+            let (mut a, ra) = $a;
+            let (x, rx) = $x;
+            let n = ra.len;
+            let i = nd::upto(n);
+            wit_grow2!(ra, rx);
+            w!(i > 0 && i < n && n + rx.len > ra.cap, "overflowing insert in the middle");
+            a.insert(i, &x);
+            if n + rx.len > ra.cap {
+                never!("NEVER:returned");
+            }
+            let r = a.into_raw();
+            assert!(r.len <= r.cap, "C19: insert returned a vector with len > capacity");
+            assert!(r.inv() && r.len == n + rx.len, "C19: insert returned a broken or silently truncated vector");
+        });
+    };
+}
+
+/// extend with `k` (symbolic, 0..=8) bits from a slice iterator.
+macro_rules! h_grow_extend_bits {
+    ($name:ident, $unw:literal, $a:expr) => {
+        harness_mp!($name, $unw, {
+            let (mut a, ra) = $a;
+            let n = ra.len;
+            let bits = bits8!();
+            let k = nd::upto(8);
+            w!(n + k == ra.cap + 1, "one bit too many");
+            w!(n + k == ra.cap && k > 0, "fills the capacity exactly");
+            w!(n == ra.cap && k == 0, "full vector, no bits (must succeed)");
+            a.extend(bits[..k].iter().copied());
+            if n + k > ra.cap {
+                never!("NEVER:returned");
+            }
+            let r = a.into_raw();
+            assert!(r.len <= r.cap, "C19: extend returned a vector with len > capacity");
+            assert!(r.inv() && r.len == n + k, "C19: extend returned a broken or silently truncated vector");
+        });
+    };
+}
+
+/// extend from the bit iterator of another vector.
+macro_rules! h_grow_extend_iter {
+    ($name:ident, $unw:literal, $a:expr, $x:expr) => {
+        harness_mp!($name, $unw, {
+            let (mut a, ra) = $a;
+            let (x, rx) = $x;
+            let n = ra.len;
+            wit_grow2!(ra, rx);
+            a.extend(x.iter());
+            if n + rx.len > ra.cap {
+                never!("NEVER:returned");
+            }
+            let r = a.into_raw();
+            assert!(r.len <= r.cap, "C19: extend returned a vector with len > capacity");
+            assert!(r.inv() && r.len == n + rx.len, "C19: extend returned a broken or silently truncated vector");
+        });
+    };
+}
+
+/// collect the bits of another vector into the fixed type.
+macro_rules! h_grow_collect {
+    ($name:ident, $unw:literal, $T:ty, $cap:literal, $x:expr) => {
+        harness_mp!($name, $unw, {
+            let (x, rx) = $x;
+            w!(rx.len == $cap + 1, "one bit too many");
+            w!(rx.len == $cap, "fills the capacity exactly");
+            w!(rx.len == 0, "no bits");
+            let c: $T = x.iter().collect();
+            if rx.len > $cap {
+                never!("NEVER:returned");
+            }
+            let r = c.into_raw();
+            assert!(r.len <= r.cap, "C19: collect returned a vector with len > capacity");
+            assert!(r.inv() && r.len == rx.len && r.v == rx.v, "C19: collect returned a broken or silently truncated vector");
+        });
+    };
+}
+
+// ---- constructors that must panic ---------------------------------------------------------------
+
+macro_rules! h_ctor_panics {
+    ($name:ident, $unw:literal, $T:ty, $cap:literal) => {
+        harness_mp!($name, $unw, {
+            let len = nd::usize();
+            nd::assume(len > $cap);
+            let which = nd::upto(3);
+            w!(len == $cap + 1 && which == 0, "zeros(capacity + 1)");
+            w!(len == $cap + 1 && which == 1, "ones(capacity + 1)");
+            w!(len == usize::MAX && which == 1, "ones(usize::MAX)");
+            w!(which >= 2, "repeat(bit, len)");
+            let r = if which == 0 {
+                <$T>::zeros(len)
+            } else if which == 1 {
+                <$T>::ones(len)
+            } else if which == 2 {
+                <$T>::repeat(Bit::Zero, len)
+            } else {
+                <$T>::repeat(Bit::One, len)
+            };
+            never!("NEVER:returned");
+        });
+    };
+}
+
+/// The accepting side of the same constructors: within the capacity they do not panic and
+/// give `len <= capacity` (normal harness: any panic fails it).
+macro_rules! h_ctor_ok {
+    ($name:ident, $unw:literal, $T:ty, $cap:literal) => {
+        harness!($name, $unw, {
+            let len = nd::upto($cap);
+            let which = nd::upto(1);
+            w!(len == $cap && which == 1, "ones(capacity)");
+            w!(len == 0, "length 0");
+            let r = if which == 0 { <$T>::zeros(len) } else { <$T>::ones(len) };
+            let r = r.into_raw();
+            assert!(r.len == len && r.len <= r.cap && r.inv(), "C19: zeros/ones within capacity: wrong length or broken invariant");
+            assert!(r.v == if which == 0 { Big::ZERO } else { Big::mask(len) }, "C19: zeros/ones within capacity: wrong bits");
+        });
+    };
+}
+
+// ---- constructors that must return an error ----------------------------------------------------
+
+/// from_bytes with `$k` (concrete, <= 4) bytes of symbolic content.
+macro_rules! h_from_bytes {
+    ($name:ident, $unw:literal, $T:ty, $cap:literal, $k:literal) => {
+        harness!($name, $unw, {
+            let bytes = [nd::u8(), nd::u8(), nd::u8(), nd::u8()];
+            let e = nd::endianness();
+            w!(e == Endianness::Big, "big endian");
+            w!(bytes[0] != 0 && bytes[$k - 1] == 0xff, "first byte non-zero, last byte all ones");
+            let r = <$T>::from_bytes(&bytes[..$k], e);
+            if $k * 8 > $cap {
+                assert!(matches!(r, Err(ConvertionError::NotEnoughCapacity)), "C19: from_bytes beyond capacity did not return NotEnoughCapacity");
+            } else {
+                match r {
+                    Ok(v) => {
+                        let r = v.into_raw();
+                        assert!(r.len == $k * 8 && r.len <= r.cap && r.inv(), "C19: from_bytes within capacity: wrong length or broken invariant");
+                    }
+                    Err(_) => assert!(false, "C19: from_bytes within capacity returned an error"),
+                }
+            }
+        });
+    };
+}
+
+/// from_binary / from_hex with `$k` ASCII characters (concrete count, symbolic content).
+macro_rules! h_from_str {
+    ($name:ident, $unw:literal, $T:ty, $cap:literal, $k:literal, $f:ident, $bits_per_char:literal) => {
+        harness!($name, $unw, {
+            let mut bytes = [b'0'; $k];
+            // two symbolic ASCII characters (first and last), the rest are the digit '0'
+            let c0 = nd::u8();
+            let c1 = nd::u8();
+            nd::assume(c0 < 128 && c1 < 128);
+            bytes[$k - 1] = c1;
+            bytes[0] = c0;
+            w!(c0 == b'1' && (c1 == b'1' || $k == 1), "valid digits at both ends");
+            w!(c0 == b'x', "invalid first character (length is checked first)");
+            let s = unsafe { core::str::from_utf8_unchecked(&bytes[..]) };
+            let r = <$T>::$f(s);
+            if $k * $bits_per_char > $cap {
+                assert!(matches!(r, Err(ConvertionError::NotEnoughCapacity)), "C19: from_binary/from_hex beyond capacity did not return NotEnoughCapacity");
+            } else {
+                match r {
+                    Ok(v) => {
+                        let r = v.into_raw();
+                        assert!(r.len == $k * $bits_per_char && r.len <= r.cap && r.inv(), "C19: from_binary/from_hex within capacity: wrong length or broken invariant");
+                    }
+                    Err(e) => assert!(matches!(e, ConvertionError::InvalidFormat(_)), "C19: from_binary/from_hex within capacity returned NotEnoughCapacity"),
+                }
+            }
+        });
+    };
+}
+
+/// read with a symbolic length above the capacity: error, nothing consumed, no panic.
+macro_rules! h_read_err {
+    ($name:ident, $unw:literal, $T:ty, $cap:literal) => {
+        harness!($name, $unw, {
+            let len = nd::usize();
+            nd::assume(len > $cap);
+            let data = [nd::u8(), nd::u8(), nd::u8(), nd::u8()];
+            let mut rd: &[u8] = &data[..];
+            let e = nd::endianness();
+            w!(len == $cap + 1, "length one beyond the capacity");
+            w!(len == usize::MAX, "length usize::MAX");
+            let r = <$T>::read(&mut rd, len, e);
+            assert!(r.is_err(), "C19: read beyond capacity did not return an error");
+            assert!(rd.len() == 4, "C19: read beyond capacity consumed input");
+        });
+    };
+}
+
+/// read with a (concrete: the buffer is allocated by it) length within the capacity from a
+/// long enough source: Ok, len <= capacity, invariant holds.
+macro_rules! h_read_ok {
+    ($name:ident, $unw:literal, $T:ty, $cap:literal, $len:literal) => {
+        harness!($name, $unw, {
+            let len: usize = $len;
+            let data = [nd::u8(), nd::u8(), nd::u8(), nd::u8()];
+            let mut rd: &[u8] = &data[..];
+            let e = nd::endianness();
+            w!(e == Endianness::Big, "big endian");
+            w!(data[0] == 0xff && data[1] == 0xff, "all ones in the bytes read");
+            match <$T>::read(&mut rd, len, e) {
+                Ok(v) => {
+                    let r = v.into_raw();
+                    assert!(r.len == len && r.len <= r.cap && r.inv(), "C19: read within capacity: wrong length or broken invariant");
+                }
+                Err(_) => assert!(false, "C19: read within capacity returned an error"),
+            }
+        });
+    };
+}
+
+/// TryFrom<uN>: Err exactly when the value needs more bits than the capacity.
+macro_rules! h_try_from_int {
+    ($name:ident, $unw:literal, $T:ty, $cap:literal, $I:ident, $draw:ident) => {
+        harness!($name, $unw, {
+            let x: $I = nd::$draw();
+            let bits = <$I>::BITS as usize;
+            let sig = (<$I>::BITS - x.leading_zeros()) as usize;
+            w!(sig == $cap + 1, "value needs exactly one bit more than the capacity");
+            w!(sig == $cap, "value needs exactly the capacity");
+            w!(x == 0, "zero");
+            let r = <$T>::try_from(x);
+            let r2 = <$T>::try_from(&x);
+            if sig > $cap {
+                assert!(matches!(r, Err(ConvertionError::NotEnoughCapacity)), "C19: TryFrom<uN> of a value that does not fit did not return NotEnoughCapacity");
+                assert!(r2.is_err(), "C19: TryFrom<&uN> of a value that does not fit did not return an error");
+            } else {
+                match (r, r2) {
+                    (Ok(v), Ok(v2)) => {
+                        let r = v.into_raw();
+                        assert!(r.len <= r.cap && r.inv(), "C19: TryFrom<uN>: len > capacity or broken invariant");
+                        assert!(r.len == if bits < $cap { bits } else { $cap }, "C19: TryFrom<uN>: length != min(width, capacity)");
+                        assert!(r.v == Big::lo(x as u128), "C19: TryFrom<uN>: value changed");
+                        assert!(v2.into_raw() == r, "C19: TryFrom<&uN> differs from TryFrom<uN>");
+                    }
+                    _ => assert!(false, "C19: TryFrom<uN> of a value that fits returned an error"),
+                }
+            }
+        });
+    };
+}
+
+/// TryFrom<&[J]> with `$k` (concrete, 1..=4) elements of symbolic content.
+macro_rules! h_try_from_slice {
+    ($name:ident, $unw:literal, $T:ty, $cap:literal, $J:ident, $draw:ident, $k:literal) => {
+        harness!($name, $unw, {
+            const B: usize = <$J>::BITS as usize;
+            let arr: [$J; 4] = [nd::$draw(), nd::$draw(), nd::$draw(), nd::$draw()];
+            let want = Big::lo(arr[0] as u128)
+                .or(Big::lo(arr[1] as u128).shl(B))
+                .or(Big::lo(arr[2] as u128).shl(2 * B))
+                .or(Big::lo(arr[3] as u128).shl(3 * B))
+                .trunc($k * B);
+            w!(arr[$k - 1] == <$J>::MAX, "last element all ones");
+            w!(want.is_zero(), "all zeros");
+            let r = <$T>::try_from(&arr[..$k]);
+            if $k * B > $cap {
+                assert!(matches!(r, Err(ConvertionError::NotEnoughCapacity)), "C19: TryFrom<&[J]> beyond capacity did not return NotEnoughCapacity");
+            } else {
+                match r {
+                    Ok(v) => {
+                        let r = v.into_raw();
+                        assert!(r.len == $k * B && r.len <= r.cap && r.v == want, "C19: TryFrom<&[J]> within capacity: wrong length or value");
+                    }
+                    Err(_) => assert!(false, "C19: TryFrom<&[J]> within capacity returned an error"),
+                }
+            }
+        });
+    };
+}
+
+/// TryFrom<&V> for another bit vector V (by reference): Err exactly when len(V) > capacity.
+macro_rules! h_try_from_bv {
+    ($name:ident, $unw:literal, $T:ty, $cap:literal, $x:expr) => {
+        harness!($name, $unw, {
+            let (x, rx) = $x;
+            w!(rx.len == $cap + 1, "one bit too long");
+            w!(rx.len == $cap && rx.v.bit($cap - 1), "exactly the capacity, top bit set");
+            w!(rx.len > $cap && rx.v.fits($cap), "too long although the value would fit (still an error)");
+            w!(rx.len == 0, "empty");
+            let r = <$T>::try_from(&x);
+            if rx.len > $cap {
+                assert!(matches!(r, Err(ConvertionError::NotEnoughCapacity)), "C19: TryFrom<&vector> longer than the capacity did not return NotEnoughCapacity");
+            } else {
+                match r {
+                    Ok(v) => {
+                        let r = v.into_raw();
+                        assert!(r.len == rx.len && r.len <= r.cap && r.v == rx.v, "C19: TryFrom<&vector> within capacity: wrong length or value");
+                    }
+                    Err(_) => assert!(false, "C19: TryFrom<&vector> within capacity returned an error"),
+                }
+            }
+            assert!(x.into_raw() == rx, "C19: TryFrom<&vector> modified its argument");
+        });
+    };
+}
+
+// ---- documented index panics (builds with debug assertions) ------------------------------------
+
+macro_rules! h_idx_get {
+    ($name:ident, $unw:literal, $a:expr) => {
+        harness_mp!($name, $unw, {
+            let (a, ra) = $a;
+            let i = nd::usize();
+            nd::assume(i >= ra.len);
+            w!(i == ra.len && ra.len < ra.cap, "index == len, inside the storage");
+            w!(i == ra.len && ra.len == ra.cap, "index == len == capacity");
+            w!(i == usize::MAX, "index usize::MAX");
+            w!(ra.len == 0, "empty vector");
+            let b = a.get(i);
+            never!("NEVER:returned");
+        });
+    };
+}
+
+macro_rules! h_idx_set {
+    ($name:ident, $unw:literal, $a:expr) => {
+        harness_mp!($name, $unw, {
+            let (mut a, ra) = $a;
+            let i = nd::usize();
+            nd::assume(i >= ra.len);
+            w!(i == ra.len && ra.len < ra.cap, "index == len, inside the storage");
+            w!(i == ra.len && ra.len == ra.cap, "index == len == capacity");
+            w!(i == usize::MAX, "index usize::MAX");
+            a.set(i, nd::bit());
+            never!("NEVER:returned");
+        });
+    };
+}
+
+macro_rules! h_idx_copy_range {
+    ($name:ident, $unw:literal, $a:expr) => {
+        harness_mp!($name, $unw, {
+            let (a, ra) = $a;
+            let s = nd::usize();
+            let e = nd::usize();
+            nd::assume(s > ra.len || e > ra.len);
+            w!(s <= e && e == ra.len + 1 && e <= ra.cap, "end one beyond len, still inside the storage");
+            w!(s == ra.len + 1 && e == s, "empty range starting beyond len");
+            w!(e == usize::MAX && s == 0, "end usize::MAX");
+            w!(s > e, "reversed range with an index out of range");
+            let r = a.copy_range(s..e);
+            never!("NEVER:returned");
+        });
+    };
+}
+
+macro_rules! h_idx_split_off {
+    ($name:ident, $unw:literal, $a:expr) => {
+        harness_mp!($name, $unw, {
+            let (mut a, ra) = $a;
+            let i = nd::usize();
+            nd::assume(i > ra.len);
+            w!(i == ra.len + 1 && i <= ra.cap, "index one beyond len, still inside the storage");
+            w!(i == usize::MAX, "index usize::MAX");
+            w!(ra.len == 0, "empty vector");
+            let r = a.split_off(i);
+            never!("NEVER:returned");
+        });
+    };
+}
+
+// ==== generated instantiations ================================================================
+// Fixed types: Bvf<u8,1> (8 bits), Bvf<u8,2> (16 bits, multi-word), Bvf<u16,1> (16 bits);
+// thorough tier also Bvf<u8,3> and Bvf<u64,1>.
+h_grow_push!(c19_q_push_f8x1_pb, 3, f8x1(anylen(8)));
+h_grow_resize!(c19_q_resize_f8x1_pb, 3, f8x1(anylen(8)));
+h_grow_sign_extend!(c19_q_signext_f8x1_pb, 3, f8x1(anylen(8)));
+h_grow_extend_bits!(c19_q_extendbits_f8x1_pb, 11, f8x1(anylen(8)));
+h_ctor_panics!(c19_q_ctor_f8x1_pb, 3, Bvf<u8, 1>, 8);
+h_ctor_ok!(c19_q_ctorok_f8x1_pb, 3, Bvf<u8, 1>, 8);
+h_idx_get!(c19_q_idxget_f8x1, 3, f8x1(anylen(8)));
+h_idx_set!(c19_q_idxset_f8x1, 3, f8x1(anylen(8)));
+h_idx_copy_range!(c19_q_idxrange_f8x1, 3, f8x1(anylen(8)));
+h_idx_split_off!(c19_q_idxsplit_f8x1, 3, f8x1(anylen(8)));
+h_grow_push!(c19_q_push_f8x2_pb, 3, f8x2(anylen(16)));
+h_grow_resize!(c19_q_resize_f8x2_pb, 4, f8x2(anylen(16)));
+h_grow_sign_extend!(c19_q_signext_f8x2_pb, 4, f8x2(anylen(16)));
+h_grow_extend_bits!(c19_q_extendbits_f8x2_pb, 11, f8x2(anylen(16)));
+h_ctor_panics!(c19_q_ctor_f8x2_pb, 4, Bvf<u8, 2>, 16);
+h_ctor_ok!(c19_q_ctorok_f8x2_pb, 4, Bvf<u8, 2>, 16);
+h_idx_get!(c19_q_idxget_f8x2, 3, f8x2(anylen(16)));
+h_idx_set!(c19_q_idxset_f8x2, 3, f8x2(anylen(16)));
+h_idx_copy_range!(c19_q_idxrange_f8x2, 4, f8x2(anylen(16)));
+h_idx_split_off!(c19_q_idxsplit_f8x2, 4, f8x2(anylen(16)));
+h_grow_push!(c19_q_push_f16x1_pb, 3, f16x1(anylen(16)));
+h_grow_resize!(c19_q_resize_f16x1_pb, 3, f16x1(anylen(16)));
+h_grow_sign_extend!(c19_q_signext_f16x1_pb, 3, f16x1(anylen(16)));
+h_grow_extend_bits!(c19_q_extendbits_f16x1_pb, 11, f16x1(anylen(16)));
+h_ctor_panics!(c19_q_ctor_f16x1_pb, 3, Bvf<u16, 1>, 16);
+h_ctor_ok!(c19_q_ctorok_f16x1_pb, 3, Bvf<u16, 1>, 16);
+h_idx_get!(c19_q_idxget_f16x1, 3, f16x1(anylen(16)));
+h_idx_set!(c19_q_idxset_f16x1, 3, f16x1(anylen(16)));
+h_idx_copy_range!(c19_q_idxrange_f16x1, 3, f16x1(anylen(16)));
+h_idx_split_off!(c19_q_idxsplit_f16x1, 3, f16x1(anylen(16)));
+h_grow_push!(c19_t_push_f8x3_pb, 3, f8x3(anylen(24)));
+h_grow_resize!(c19_t_resize_f8x3_pb, 5, f8x3(anylen(24)));
+h_grow_sign_extend!(c19_t_signext_f8x3_pb, 5, f8x3(anylen(24)));
+h_grow_extend_bits!(c19_t_extendbits_f8x3_pb, 11, f8x3(anylen(24)));
+h_ctor_panics!(c19_t_ctor_f8x3_pb, 5, Bvf<u8, 3>, 24);
+h_ctor_ok!(c19_t_ctorok_f8x3_pb, 5, Bvf<u8, 3>, 24);
+h_idx_get!(c19_t_idxget_f8x3, 3, f8x3(anylen(24)));
+h_idx_set!(c19_t_idxset_f8x3, 3, f8x3(anylen(24)));
+h_idx_copy_range!(c19_t_idxrange_f8x3, 5, f8x3(anylen(24)));
+h_idx_split_off!(c19_t_idxsplit_f8x3, 5, f8x3(anylen(24)));
+h_grow_push!(c19_t_push_f64x1_pb, 3, f64x1(anylen(64)));
+h_grow_resize!(c19_t_resize_f64x1_pb, 3, f64x1(anylen(64)));
+h_grow_sign_extend!(c19_t_signext_f64x1_pb, 3, f64x1(anylen(64)));
+h_grow_extend_bits!(c19_t_extendbits_f64x1_pb, 11, f64x1(anylen(64)));
+h_ctor_panics!(c19_t_ctor_f64x1_pb, 3, Bvf<u64, 1>, 64);
+h_ctor_ok!(c19_t_ctorok_f64x1_pb, 3, Bvf<u64, 1>, 64);
+h_idx_get!(c19_t_idxget_f64x1, 3, f64x1(anylen(64)));
+h_idx_set!(c19_t_idxset_f64x1, 3, f64x1(anylen(64)));
+h_idx_copy_range!(c19_t_idxrange_f64x1, 3, f64x1(anylen(64)));
+h_idx_split_off!(c19_t_idxsplit_f64x1, 3, f64x1(anylen(64)));
+
+// growth with a vector argument: operands of other word types / implementations, long enough to
+// exceed the capacity on their own
+h_grow_append!(c19_q_append_f8x1_f8x2_pb, 5, f8x1(anylen(8)), f8x2(anylen(16)));
+h_grow_prepend!(c19_q_prepend_f8x1_f8x2_pb, 6, f8x1(anylen(8)), f8x2(anylen(16)));
+h_grow_insert!(c19_q_insert_f8x1_f8x2_pb, 6, f8x1(anylen(8)), f8x2(anylen(16)));
+h_grow_append!(c19_q_append_f8x1_f16x1_pb, 5, f8x1(anylen(8)), f16x1(anylen(16)));
+h_grow_prepend!(c19_q_prepend_f8x1_f16x1_pb, 6, f8x1(anylen(8)), f16x1(anylen(16)));
+h_grow_insert!(c19_t_insert_f8x1_f16x1_pb, 6, f8x1(anylen(8)), f16x1(anylen(16)));
+h_grow_append!(c19_q_append_f8x1_bvd1_pb, 5, f8x1(anylen(8)), bvd1(anylen(12)));
+h_grow_prepend!(c19_q_prepend_f8x1_bvd1_pb, 6, f8x1(anylen(8)), bvd1(anylen(12)));
+h_grow_insert!(c19_t_insert_f8x1_bvd1_pb, 6, f8x1(anylen(8)), bvd1(anylen(12)));
+h_grow_append!(c19_q_append_f8x2_f8x3_pb, 6, f8x2(anylen(16)), f8x3(anylen(24)));
+h_grow_prepend!(c19_q_prepend_f8x2_f8x3_pb, 8, f8x2(anylen(16)), f8x3(anylen(24)));
+h_grow_insert!(c19_q_insert_f8x2_f8x3_pb, 8, f8x2(anylen(16)), f8x3(anylen(24)));
+h_grow_append!(c19_q_append_f8x2_bvfix_pb, 6, f8x2(anylen(16)), bvfix(anylen(20)));
+h_grow_prepend!(c19_q_prepend_f8x2_bvfix_pb, 8, f8x2(anylen(16)), bvfix(anylen(20)));
+h_grow_insert!(c19_t_insert_f8x2_bvfix_pb, 8, f8x2(anylen(16)), bvfix(anylen(20)));
+h_grow_append!(c19_q_append_f16x1_f8x3_pb, 6, f16x1(anylen(16)), f8x3(anylen(24)));
+h_grow_prepend!(c19_q_prepend_f16x1_f8x3_pb, 6, f16x1(anylen(16)), f8x3(anylen(24)));
+h_grow_insert!(c19_q_insert_f16x1_f8x3_pb, 6, f16x1(anylen(16)), f8x3(anylen(24)));
+h_grow_append!(c19_q_append_f16x1_bvd1_pb, 6, f16x1(anylen(16)), bvd1(anylen(20)));
+h_grow_prepend!(c19_q_prepend_f16x1_bvd1_pb, 6, f16x1(anylen(16)), bvd1(anylen(20)));
+h_grow_insert!(c19_t_insert_f16x1_bvd1_pb, 6, f16x1(anylen(16)), bvd1(anylen(20)));
+h_grow_append!(c19_t_append_f8x1_bvdyn2_pb, 5, f8x1(anylen(8)), bvdyn2(anylen(12)));
+h_grow_prepend!(c19_t_prepend_f8x1_bvdyn2_pb, 6, f8x1(anylen(8)), bvdyn2(anylen(12)));
+h_grow_insert!(c19_t_insert_f8x1_bvdyn2_pb, 6, f8x1(anylen(8)), bvdyn2(anylen(12)));
+h_grow_append!(c19_t_append_f8x2_f64x2_pb, 6, f8x2(anylen(16)), f64x2(anylen(20)));
+h_grow_prepend!(c19_t_prepend_f8x2_f64x2_pb, 8, f8x2(anylen(16)), f64x2(anylen(20)));
+h_grow_insert!(c19_t_insert_f8x2_f64x2_pb, 8, f8x2(anylen(16)), f64x2(anylen(20)));
+h_grow_append!(c19_t_append_f16x1_f16x2_pb, 6, f16x1(anylen(16)), f16x2(anylen(32)));
+h_grow_prepend!(c19_t_prepend_f16x1_f16x2_pb, 6, f16x1(anylen(16)), f16x2(anylen(32)));
+h_grow_insert!(c19_t_insert_f16x1_f16x2_pb, 6, f16x1(anylen(16)), f16x2(anylen(32)));
+h_grow_append!(c19_t_append_f8x3_f8x4_pb, 7, f8x3(anylen(24)), f8x4(anylen(32)));
+h_grow_prepend!(c19_t_prepend_f8x3_f8x4_pb, 10, f8x3(anylen(24)), f8x4(anylen(32)));
+h_grow_insert!(c19_t_insert_f8x3_f8x4_pb, 10, f8x3(anylen(24)), f8x4(anylen(32)));
+h_grow_append!(c19_t_append_f64x1_f64x2_pb, 12, f64x1(anylen(64)), f64x2(anylen(70)));
+h_grow_prepend!(c19_t_prepend_f64x1_f64x2_pb, 12, f64x1(anylen(64)), f64x2(anylen(70)));
+h_grow_insert!(c19_t_insert_f64x1_f64x2_pb, 12, f64x1(anylen(64)), f64x2(anylen(70)));
+h_grow_extend_iter!(c19_q_extend_f8x1_f8x2_pb, 19, f8x1(anylen(8)), f8x2(anylen(16)));
+h_grow_collect!(c19_q_collect_f8x1_f8x2_pb, 19, Bvf<u8, 1>, 8, f8x2(anylen(16)));
+h_grow_extend_iter!(c19_q_extend_f8x2_f8x3_pb, 27, f8x2(anylen(16)), f8x3(anylen(24)));
+h_grow_collect!(c19_q_collect_f8x2_f8x3_pb, 27, Bvf<u8, 2>, 16, f8x3(anylen(24)));
+h_grow_extend_iter!(c19_q_extend_f16x1_bvd1_pb, 23, f16x1(anylen(16)), bvd1(anylen(20)));
+h_grow_collect!(c19_q_collect_f16x1_bvd1_pb, 23, Bvf<u16, 1>, 16, bvd1(anylen(20)));
+h_grow_extend_iter!(c19_t_extend_f8x1_bvfix_pb, 15, f8x1(anylen(8)), bvfix(anylen(12)));
+h_grow_collect!(c19_t_collect_f8x1_bvfix_pb, 15, Bvf<u8, 1>, 8, bvfix(anylen(12)));
+h_grow_extend_iter!(c19_t_extend_f8x3_f8x4_pb, 35, f8x3(anylen(24)), f8x4(anylen(32)));
+h_grow_collect!(c19_t_collect_f8x3_f8x4_pb, 35, Bvf<u8, 3>, 24, f8x4(anylen(32)));
+
+// constructors returning Result: Err exactly beyond the capacity, never a panic
+h_from_bytes!(c19_q_frombytes_f8x1_k1_pb, 4, Bvf<u8, 1>, 8, 1);
+h_from_bytes!(c19_q_frombytes_f8x1_k2_pb, 5, Bvf<u8, 1>, 8, 2);
+h_from_bytes!(c19_q_frombytes_f8x1_k3_pb, 6, Bvf<u8, 1>, 8, 3);
+h_from_bytes!(c19_q_frombytes_f8x2_k2_pb, 5, Bvf<u8, 2>, 16, 2);
+h_from_bytes!(c19_q_frombytes_f8x2_k3_pb, 6, Bvf<u8, 2>, 16, 3);
+h_from_bytes!(c19_q_frombytes_f8x2_k4_pb, 7, Bvf<u8, 2>, 16, 4);
+h_from_bytes!(c19_q_frombytes_f16x1_k2_pb, 5, Bvf<u16, 1>, 16, 2);
+h_from_bytes!(c19_q_frombytes_f16x1_k3_pb, 6, Bvf<u16, 1>, 16, 3);
+h_from_bytes!(c19_q_frombytes_f16x1_k4_pb, 7, Bvf<u16, 1>, 16, 4);
+h_from_bytes!(c19_t_frombytes_f8x3_k3_pb, 6, Bvf<u8, 3>, 24, 3);
+h_from_bytes!(c19_t_frombytes_f8x3_k4_pb, 7, Bvf<u8, 3>, 24, 4);
+h_from_str!(c19_q_frombinary_f8x1_k8_pb, 11, Bvf<u8, 1>, 8, 8, from_binary, 1);
+h_from_str!(c19_q_frombinary_f8x1_k9_pb, 12, Bvf<u8, 1>, 8, 9, from_binary, 1);
+h_from_str!(c19_q_frombinary_f8x2_k17_pb, 20, Bvf<u8, 2>, 16, 17, from_binary, 1);
+h_from_str!(c19_q_frombinary_f16x1_k16_pb, 19, Bvf<u16, 1>, 16, 16, from_binary, 1);
+h_from_str!(c19_q_frombinary_f16x1_k17_pb, 20, Bvf<u16, 1>, 16, 17, from_binary, 1);
+h_from_str!(c19_t_frombinary_f8x2_k16_pb, 19, Bvf<u8, 2>, 16, 16, from_binary, 1);
+h_from_str!(c19_t_frombinary_f8x2_k20_pb, 23, Bvf<u8, 2>, 16, 20, from_binary, 1);
+h_from_str!(c19_t_frombinary_f8x1_k12_pb, 15, Bvf<u8, 1>, 8, 12, from_binary, 1);
+h_from_str!(c19_q_fromhex_f8x1_k2_pb, 5, Bvf<u8, 1>, 8, 2, from_hex, 4);
+h_from_str!(c19_q_fromhex_f8x1_k3_pb, 6, Bvf<u8, 1>, 8, 3, from_hex, 4);
+h_from_str!(c19_q_fromhex_f8x2_k4_pb, 7, Bvf<u8, 2>, 16, 4, from_hex, 4);
+h_from_str!(c19_q_fromhex_f8x2_k5_pb, 8, Bvf<u8, 2>, 16, 5, from_hex, 4);
+h_from_str!(c19_q_fromhex_f16x1_k4_pb, 7, Bvf<u16, 1>, 16, 4, from_hex, 4);
+h_from_str!(c19_q_fromhex_f16x1_k5_pb, 8, Bvf<u16, 1>, 16, 5, from_hex, 4);
+h_from_str!(c19_t_fromhex_f8x1_k4_pb, 7, Bvf<u8, 1>, 8, 4, from_hex, 4);
+h_from_str!(c19_t_fromhex_f8x2_k7_pb, 10, Bvf<u8, 2>, 16, 7, from_hex, 4);
+h_read_err!(c19_q_readerr_f8x1_pb, 6, Bvf<u8, 1>, 8);
+h_read_err!(c19_q_readerr_f8x2_pb, 6, Bvf<u8, 2>, 16);
+h_read_err!(c19_q_readerr_f16x1_pb, 6, Bvf<u16, 1>, 16);
+h_read_err!(c19_t_readerr_f8x3_pb, 6, Bvf<u8, 3>, 24);
+h_read_ok!(c19_q_readok_f8x1_l8_pb, 8, Bvf<u8, 1>, 8, 8);
+h_read_ok!(c19_q_readok_f8x1_l5_pb, 8, Bvf<u8, 1>, 8, 5);
+h_read_ok!(c19_q_readok_f8x2_l16_pb, 8, Bvf<u8, 2>, 16, 16);
+h_read_ok!(c19_q_readok_f8x2_l9_pb, 8, Bvf<u8, 2>, 16, 9);
+h_read_ok!(c19_q_readok_f16x1_l16_pb, 8, Bvf<u16, 1>, 16, 16);
+h_read_ok!(c19_t_readok_f16x1_l13_pb, 8, Bvf<u16, 1>, 16, 13);
+h_read_ok!(c19_t_readok_f8x3_l24_pb, 8, Bvf<u8, 3>, 24, 24);
+h_try_from_int!(c19_q_tryfrom_f8x1_u16_pb, 3, Bvf<u8, 1>, 8, u16, u16);
+h_try_from_int!(c19_q_tryfrom_f8x1_u32_pb, 3, Bvf<u8, 1>, 8, u32, u32);
+h_try_from_int!(c19_q_tryfrom_f8x1_u64_pb, 3, Bvf<u8, 1>, 8, u64, u64);
+h_try_from_int!(c19_q_tryfrom_f8x1_u128_pb, 3, Bvf<u8, 1>, 8, u128, u128);
+h_try_from_int!(c19_q_tryfrom_f8x2_u32_pb, 4, Bvf<u8, 2>, 16, u32, u32);
+h_try_from_int!(c19_q_tryfrom_f8x2_u64_pb, 4, Bvf<u8, 2>, 16, u64, u64);
+h_try_from_int!(c19_q_tryfrom_f16x1_u32_pb, 3, Bvf<u16, 1>, 16, u32, u32);
+h_try_from_int!(c19_q_tryfrom_f16x1_u128_pb, 3, Bvf<u16, 1>, 16, u128, u128);
+h_try_from_int!(c19_t_tryfrom_f8x2_u128_pb, 4, Bvf<u8, 2>, 16, u128, u128);
+h_try_from_int!(c19_t_tryfrom_f16x1_u64_pb, 3, Bvf<u16, 1>, 16, u64, u64);
+h_try_from_int!(c19_t_tryfrom_f8x1_usize_pb, 3, Bvf<u8, 1>, 8, usize, usize);
+h_try_from_int!(c19_t_tryfrom_f8x3_u32_pb, 5, Bvf<u8, 3>, 24, u32, u32);
+h_try_from_int!(c19_t_tryfrom_f8x3_u64_pb, 5, Bvf<u8, 3>, 24, u64, u64);
+h_try_from_slice!(c19_q_tryfromslice_f8x1_u8_k1_pb, 10, Bvf<u8, 1>, 8, u8, u8, 1);
+h_try_from_slice!(c19_q_tryfromslice_f8x1_u8_k2_pb, 10, Bvf<u8, 1>, 8, u8, u8, 2);
+h_try_from_slice!(c19_q_tryfromslice_f8x1_u16_k1_pb, 10, Bvf<u8, 1>, 8, u16, u16, 1);
+h_try_from_slice!(c19_q_tryfromslice_f8x2_u8_k2_pb, 10, Bvf<u8, 2>, 16, u8, u8, 2);
+h_try_from_slice!(c19_q_tryfromslice_f8x2_u8_k3_pb, 10, Bvf<u8, 2>, 16, u8, u8, 3);
+h_try_from_slice!(c19_q_tryfromslice_f8x2_u16_k1_pb, 10, Bvf<u8, 2>, 16, u16, u16, 1);
+h_try_from_slice!(c19_q_tryfromslice_f8x2_u16_k2_pb, 10, Bvf<u8, 2>, 16, u16, u16, 2);
+h_try_from_slice!(c19_q_tryfromslice_f16x1_u8_k2_pb, 10, Bvf<u16, 1>, 16, u8, u8, 2);
+h_try_from_slice!(c19_q_tryfromslice_f16x1_u8_k3_pb, 10, Bvf<u16, 1>, 16, u8, u8, 3);
+h_try_from_slice!(c19_q_tryfromslice_f16x1_u16_k1_pb, 10, Bvf<u16, 1>, 16, u16, u16, 1);
+h_try_from_slice!(c19_q_tryfromslice_f16x1_u16_k2_pb, 10, Bvf<u16, 1>, 16, u16, u16, 2);
+h_try_from_slice!(c19_t_tryfromslice_f8x2_u32_k1_pb, 10, Bvf<u8, 2>, 16, u32, u32, 1);
+h_try_from_slice!(c19_t_tryfromslice_f8x3_u8_k3_pb, 10, Bvf<u8, 3>, 24, u8, u8, 3);
+h_try_from_slice!(c19_t_tryfromslice_f8x3_u8_k4_pb, 10, Bvf<u8, 3>, 24, u8, u8, 4);
+h_try_from_slice!(c19_t_tryfromslice_f16x1_u64_k1_pb, 10, Bvf<u16, 1>, 16, u64, u64, 1);
+h_try_from_bv!(c19_q_tryfrom_f8x1_f8x2_pb, 4, Bvf<u8, 1>, 8, f8x2(anylen(16)));
+h_try_from_bv!(c19_q_tryfrom_f8x1_f16x1_pb, 4, Bvf<u8, 1>, 8, f16x1(anylen(16)));
+h_try_from_bv!(c19_q_tryfrom_f8x1_bvd1_pb, 4, Bvf<u8, 1>, 8, bvd1(anylen(20)));
+h_try_from_bv!(c19_q_tryfrom_f8x1_bvfix_pb, 4, Bvf<u8, 1>, 8, bvfix(anylen(20)));
+h_try_from_bv!(c19_q_tryfrom_f8x2_f8x3_pb, 5, Bvf<u8, 2>, 16, f8x3(anylen(24)));
+h_try_from_bv!(c19_q_tryfrom_f8x2_bvd1_pb, 5, Bvf<u8, 2>, 16, bvd1(anylen(24)));
+h_try_from_bv!(c19_q_tryfrom_f8x2_bvdyn2_pb, 5, Bvf<u8, 2>, 16, bvdyn2(anylen(24)));
+h_try_from_bv!(c19_q_tryfrom_f16x1_f8x3_pb, 4, Bvf<u16, 1>, 16, f8x3(anylen(24)));
+h_try_from_bv!(c19_q_tryfrom_f16x1_f16x2_pb, 4, Bvf<u16, 1>, 16, f16x2(anylen(32)));
+h_try_from_bv!(c19_q_tryfrom_f16x1_bvfix_pb, 4, Bvf<u16, 1>, 16, bvfix(anylen(24)));
+h_try_from_bv!(c19_t_tryfrom_f8x1_f64x2_pb, 4, Bvf<u8, 1>, 8, f64x2(anylen(128)));
+h_try_from_bv!(c19_t_tryfrom_f8x1_bvdyn3_pb, 4, Bvf<u8, 1>, 8, bvdyn3(anylen(192)));
+h_try_from_bv!(c19_t_tryfrom_f8x2_f64x2_pb, 5, Bvf<u8, 2>, 16, f64x2(anylen(128)));
+h_try_from_bv!(c19_t_tryfrom_f16x1_bvd2_pb, 4, Bvf<u16, 1>, 16, bvd2(anylen(128)));
+h_try_from_bv!(c19_t_tryfrom_f8x3_f8x4_pb, 6, Bvf<u8, 3>, 24, f8x4(anylen(32)));
+h_try_from_bv!(c19_t_tryfrom_f8x3_bvfix_pb, 6, Bvf<u8, 3>, 24, bvfix(anylen(128)));
